@@ -251,7 +251,7 @@ CXXFLAGS = '-std=c++14 -O1 -g -DNDEBUG -I%s/include -iquote %s -Wno-deprecated-d
 ASAN = '-fsanitize=address,undefined -fno-sanitize-recover=all -fno-omit-frame-pointer'
 
 
-XX
+def cxx_build(pid, sources, extra='', asan=False, libphoton=False, out=None, timeout=3600):
     """compile a harness against /repo's current working tree; returns (exe|None, log)"""
     os.makedirs(os.path.join(BUILD, 'bin'), exist_ok=True)
     exe = out or os.path.join(BUILD, 'bin', pid + '_impl')
